@@ -173,6 +173,19 @@ class G2(NamedTuple, Generic[T, U]):
     b: U
     c: Dict[U, T]
 ''',
+    "pydantic": '''
+class G1(BaseModel, Generic[T]):
+    a: T
+    b: List[T]
+
+class G2(BaseModel, Generic[T, U]):
+    a: T
+    b: U
+    c: Dict[U, T]
+
+class C1(G2[int, U], Generic[U]):
+    d: U
+''',
     "attrs": '''
 @define
 class G1(Generic[T]):
@@ -216,8 +229,16 @@ def build(kind):
     if kind == "attrs":
         from attrs import define
         ns["define"] = define
-    exec(compile(SOURCES[kind], f"<c16 {kind}>", "exec", dont_inherit=True), ns)  # noqa: S102
-    return {k: v for k, v in ns.items() if isinstance(v, type) and v.__module__ == f"c16_{kind}"}
+    if kind == "pydantic":
+        from pydantic import BaseModel
+        ns["BaseModel"] = BaseModel
+    import sys
+    import types
+    mod = types.ModuleType(f"c16_{kind}")          # pydantic looks the defining module up in sys.modules
+    mod.__dict__.update(ns)
+    sys.modules[mod.__name__] = mod
+    exec(compile(SOURCES[kind], f"<c16 {kind}>", "exec", dont_inherit=True), mod.__dict__)  # noqa: S102
+    return {k: v for k, v in mod.__dict__.items() if isinstance(v, type) and v.__module__ == f"c16_{kind}" and "[" not in v.__name__}
 
 
 # ------------------------------------------------------------------------------------------------ reference resolver
@@ -265,13 +286,12 @@ def class_envs(cls, env, out):
     if bases is None or "__orig_bases__" not in cls.__dict__:
         bases = cls.__bases__
     for base in bases:
-        origin = typing.get_origin(base) or base
+        origin, args = _origin_args(base)
         if origin in (Generic, object) or not isinstance(origin, type):
             continue
-        if origin.__name__ in ("TypedDict", "NamedTuple"):
+        if origin.__name__ in ("TypedDict", "NamedTuple", "BaseModel"):
             continue
-        params = getattr(origin, "__parameters__", ())
-        args = typing.get_args(base)
+        params = getattr(origin, "__parameters__", ()) or tuple(getattr(origin, "__pydantic_generic_metadata__", {}).get("parameters", ()))
         if args:
             benv = dict(zip(params, (subst(a, env) for a in args)))
         else:
@@ -279,10 +299,16 @@ def class_envs(cls, env, out):
         class_envs(origin, benv, out)
 
 
+def _origin_args(tp):
+    meta = getattr(tp, "__pydantic_generic_metadata__", None)
+    if meta and meta.get("origin") is not None:
+        return meta["origin"], tuple(meta["args"])          # pydantic: a parametrised model is a real subclass
+    return (typing.get_origin(tp) or tp), typing.get_args(tp)
+
+
 def reference_fields(tp):
-    origin = typing.get_origin(tp) or tp
-    args = typing.get_args(tp)
-    params = getattr(origin, "__parameters__", ())
+    origin, args = _origin_args(tp)
+    params = getattr(origin, "__parameters__", ()) or tuple(getattr(origin, "__pydantic_generic_metadata__", {}).get("parameters", ()))
     env = dict(zip(params, args)) if args else {p: implicit(p) for p in params}
     envs = {}
     class_envs(origin, env, envs)
@@ -325,11 +351,11 @@ def extra_checks(tier, seed):
             except Exception:  # noqa: BLE001
                 accept_cache[k] = False
         return accept_cache[k]
-    kinds = ["dataclass", "typeddict", "namedtuple", "attrs"]
+    kinds = ["dataclass", "typeddict", "namedtuple", "attrs", "pydantic"]
     for kind in kinds:
         classes = build(kind)
         for cname, cls in classes.items():
-            params = getattr(cls, "__parameters__", ())
+            params = getattr(cls, "__parameters__", ()) or tuple(getattr(cls, "__pydantic_generic_metadata__", {}).get("parameters", ()))
             pool_names = list(POOL) if tier == "thorough" else ["int", "str", "bool", "List[str]"]
             combos = [()] + [c for c in itertools.product(pool_names, repeat=len(params))] if params else [()]
             for combo in combos:
@@ -391,7 +417,7 @@ def extra_checks(tier, seed):
     return [{
         "obligations": 0, "discharged": 0, "violations": viol,
         "bounded": [{"unit": "GenericResolver over live typing objects",
-                     "bound": f"{n_models} parametrised models from {sum(len(build(k)) for k in kinds)} classes in 4 model kinds (hierarchies printed in "
+                     "bound": f"{n_models} parametrised models from {sum(len(build(k)) for k in kinds)} classes in {len(kinds)} model kinds (hierarchies printed in "
                               f"props/C16.py), {n_probes} load probes"}],
         "samples": [{"models": n_models, "probes": n_probes, "failed": len(viol), "seconds": round(time.time() - t0, 1)}],
         "assumptions": ["reference resolver written from the typing rules (props/C16.py); acceptance of pool samples by non-generic loaders "
